@@ -490,7 +490,7 @@ def modes_sharing_invalid(modes, inv, how):
     elif how == 'inf':
         m[:, inv] = np.asarray([(np.inf, -np.inf, np.nan)[k % 3] for k in range(n)])
     else:
-        m[:, inv] = np.asarray([(1e150, -1e150)[k % 2] for k in range(n)])
+        m[:, inv] = np.asarray([(1e200, -1e200)[k % 2] for k in range(n)])
     return m
 
 
@@ -715,11 +715,11 @@ def plan(tier, seed):
                   f'bases Legendre(x)Legendre(y) 6 terms, XY monomials 6 terms, Zernike Noll 1..10 on grids {grids}; invalid-sample masks: none, EVERY single sample, '
                   'every single row, every single column, circular aperture, ragged edge, three-column band; invalid samples filled with NaN / +inf / -inf / a mixture; coefficient unit vectors + one '
                   'seeded dense; data = B c and B c + r (r orthogonal to the basis on exactly the valid samples, so any other sample selection changes the answer); '
-                  f'modes as array and as list; for the dense vector and every non-empty mask the modes additionally NaN / +-inf / finite-but-1e150 at exactly the samples the data marks invalid {MODES_AT_IGNORED} (the reference fits the valid samples only); for the dense vector and every mask other than the single-sample ones additionally data / mode stack / mode list in memory layouts {LAYOUTS[1:]}; masks leaving the basis rank-deficient on the valid samples (numpy matrix_rank) are counted under outcome '
+                  f'modes as array and as list; for the dense vector and every non-empty mask the modes additionally NaN / +-inf / finite-but-1e200 (its square overflows) at exactly the samples the data marks invalid {MODES_AT_IGNORED} (the reference fits the valid samples only); for the dense vector and every mask other than the single-sample ones additionally data / mode stack / mode list in memory layouts {LAYOUTS[1:]}; masks leaving the basis rank-deficient on the valid samples (numpy matrix_rank) are counted under outcome '
                   '"rank-deficient-skipped" and not judged', reset=reset_all),
         ScopeUnit('lstsq_conditioning', cc, run_lstsq_cond,
                   'conditioning alphabet: independent but strongly correlated modes -- monomials of total degree 2..8 on [0.5,1]^2 (cond 2e2..1e9), Zernike 1..10 on shrinking '
                   'off-centre sub-apertures (cond 1e1..2e9) and under off-centre circular NaN masks of a full grid, a near-duplicate mode x + p x^3 next to x (cond ~ 1/p, p = 1e-1..1e-10); '
-                  'with / without a ragged mask, NaN / mixed fills; dense vector + every unit vector (dense also with modes NaN / inf / 1e150 at the ignored samples); judged at k eps cond(design matrix) |c| with cond from numpy SVD of the valid rows; '
+                  'with / without a ragged mask, NaN / mixed fills; dense vector + every unit vector (dense also with modes NaN / inf / 1e200 at the ignored samples); judged at k eps cond(design matrix) |c| with cond from numpy SVD of the valid rows; '
                   'members with k eps cond > 1e-2 (cond > 4.5e10) are counted as "too-ill-conditioned-skipped" and not judged', reset=reset_all),
     ]
